@@ -264,3 +264,222 @@ fn mutate_in_place(r: &mut Rng, s: &mut Schema, depth: u32) -> Option<&'static s
         _ => None,
     }
 }
+
+// ---------------------------------------------------------------------------------------------
+// schemas with complete layout information, and single changes of a layout fact (C11)
+// (built from an intermediate tree: the layout fields of SchemaStruct / Field are private)
+
+type LFields = Vec<(String, LS, Option<usize>)>;
+
+#[derive(Clone)]
+pub enum LS {
+    Prim(SchemaPrimitive),
+    Vector(Box<LS>, VecOrStringLayout),
+    Array(Box<LS>, usize),
+    Struct { name: String, size: Option<usize>, align: Option<usize>, fields: LFields },
+    Enum { name: String, dsize: u8, explicit: bool, size: Option<usize>, align: Option<usize>, variants: Vec<(String, u8, LFields)> },
+}
+
+fn build_fields(fs: &LFields) -> Vec<Field> {
+    fs.iter().map(|(n, t, o)| unsafe { Field::unsafe_new(n.clone(), Box::new(t.build()), *o) }).collect()
+}
+
+impl LS {
+    pub fn build(&self) -> Schema {
+        match self {
+            LS::Prim(p) => Schema::Primitive(*p),
+            LS::Vector(t, l) => Schema::Vector(Box::new(t.build()), *l),
+            LS::Array(t, n) => Schema::Array(SchemaArray { item_type: Box::new(t.build()), count: *n }),
+            LS::Struct { name, size, align, fields } => Schema::Struct(SchemaStruct::new_unsafe(name.clone(), build_fields(fields), *size, *align)),
+            LS::Enum { name, dsize, explicit, size, align, variants } => Schema::Enum(SchemaEnum::new_unsafe(
+                name.clone(),
+                variants.iter().map(|(n, d, fs)| Variant { name: n.clone(), discriminant: *d, fields: build_fields(fs) }).collect(),
+                *dsize,
+                *explicit,
+                *size,
+                *align,
+            )),
+        }
+    }
+}
+
+fn layout_known(r: &mut Rng) -> VecOrStringLayout {
+    match r.below(3) {
+        0 => VecOrStringLayout::DataCapacityLength,
+        1 => VecOrStringLayout::CapacityDataLength,
+        _ => VecOrStringLayout::LengthData,
+    }
+}
+
+fn lay_fields(r: &mut Rng, depth: u32, start: usize, n: usize, prefix: &str) -> (LFields, usize, usize) {
+    let mut off = start;
+    let mut align = 1usize;
+    let mut fields = Vec::new();
+    for i in 0..n {
+        let (t, sz, al) = gen_layout(r, depth);
+        let al = al.max(1);
+        off = (off + al - 1) / al * al;
+        fields.push((format!("{}{}", prefix, i), t, Some(off)));
+        off += sz;
+        align = align.max(al);
+    }
+    (fields, off, align)
+}
+
+/// (tree, size, alignment) with nothing unknown
+pub fn gen_layout(r: &mut Rng, depth: u32) -> (LS, usize, usize) {
+    let k = if depth == 0 { r.below(3) } else { r.below(8) };
+    match k {
+        0 | 1 => {
+            let (p, sz) = match r.below(6) {
+                0 => (SchemaPrimitive::schema_u8, 1),
+                1 => (SchemaPrimitive::schema_i16, 2),
+                2 => (SchemaPrimitive::schema_u32, 4),
+                3 => (SchemaPrimitive::schema_f64, 8),
+                4 => (SchemaPrimitive::schema_bool, 1),
+                _ => (SchemaPrimitive::schema_u64, 8),
+            };
+            (LS::Prim(p), sz, sz)
+        }
+        2 => (LS::Prim(SchemaPrimitive::schema_string(layout_known(r))), 24, 8),
+        3 => {
+            let (t, _, _) = gen_layout(r, depth - 1);
+            (LS::Vector(Box::new(t), layout_known(r)), 24, 8)
+        }
+        4 => {
+            let (t, sz, al) = gen_layout(r, depth - 1);
+            let n = 1 + r.below(3) as usize;
+            (LS::Array(Box::new(t), n), sz * n, al)
+        }
+        5 | 6 => {
+            let n = 1 + r.below(3) as usize;
+            let (fields, end, align) = lay_fields(r, depth - 1, 0, n, "f");
+            let size = (end + align - 1) / align * align;
+            (LS::Struct { name: name(r), size: Some(size), align: Some(align), fields }, size, align)
+        }
+        _ => {
+            let dsize = [1usize, 2, 4][r.below(3) as usize];
+            let nv = 1 + r.below(3) as usize;
+            let mut variants = Vec::new();
+            let mut size = dsize;
+            let mut align = dsize;
+            for v in 0..nv {
+                let nf = r.below(3) as usize;
+                let (fields, end, al) = lay_fields(r, depth - 1, dsize, nf, "x");
+                size = size.max(end);
+                align = align.max(al);
+                variants.push((format!("V{}", v), v as u8, fields));
+            }
+            let size = (size + align - 1) / align * align;
+            (LS::Enum { name: name(r), dsize: dsize as u8, explicit: true, size: Some(size), align: Some(align), variants }, size, align)
+        }
+    }
+}
+
+/// one change of a layout fact somewhere in the tree; the wire shape stays the same
+pub fn mutate_layout(r: &mut Rng, s: &LS) -> Option<(&'static str, LS)> {
+    let mut s2 = s.clone();
+    let kind = mutate_layout_in_place(r, &mut s2, 0)?;
+    Some((kind, s2))
+}
+
+fn mutate_layout_in_place(r: &mut Rng, s: &mut LS, depth: u32) -> Option<&'static str> {
+    let descend = r.chance(1, 2) && depth < 5;
+    match s {
+        LS::Struct { size, align, fields, .. } => {
+            if descend && !fields.is_empty() {
+                let i = r.below(fields.len() as u64) as usize;
+                return mutate_layout_in_place(r, &mut fields[i].1, depth + 1);
+            }
+            match r.below(6) {
+                0 => {
+                    *size = None;
+                    Some("size-unknown")
+                }
+                1 => {
+                    *size = size.map(|x| x + 8);
+                    Some("size-changed")
+                }
+                2 => {
+                    *align = None;
+                    Some("alignment-unknown")
+                }
+                3 => {
+                    *align = align.map(|x| x * 2);
+                    Some("alignment-changed")
+                }
+                4 if !fields.is_empty() => {
+                    let i = r.below(fields.len() as u64) as usize;
+                    fields[i].2 = None;
+                    Some("offset-unknown")
+                }
+                5 if !fields.is_empty() => {
+                    // mostly the last field: the one a loop that stops early would miss
+                    let i = if r.chance(2, 3) { fields.len() - 1 } else { r.below(fields.len() as u64) as usize };
+                    fields[i].2 = fields[i].2.map(|o| o + 1 + r.below(8) as usize);
+                    Some("offset-changed")
+                }
+                _ => None,
+            }
+        }
+        LS::Enum { explicit, size, align, variants, dsize, .. } => {
+            let withf: Vec<usize> = variants.iter().enumerate().filter(|(_, v)| !v.2.is_empty()).map(|(i, _)| i).collect();
+            if descend && !withf.is_empty() {
+                let vi = withf[r.below(withf.len() as u64) as usize];
+                let fi = r.below(variants[vi].2.len() as u64) as usize;
+                return mutate_layout_in_place(r, &mut variants[vi].2[fi].1, depth + 1);
+            }
+            match r.below(7) {
+                0 | 1 => {
+                    *explicit = false;
+                    Some("repr-unknown")
+                }
+                2 => {
+                    *size = size.map(|x| x + 4);
+                    Some("size-changed")
+                }
+                3 => {
+                    *align = None;
+                    Some("alignment-unknown")
+                }
+                4 if !withf.is_empty() => {
+                    let vi = withf[withf.len() - 1];
+                    let fi = variants[vi].2.len() - 1;
+                    variants[vi].2[fi].2 = variants[vi].2[fi].2.map(|o| o + 1 + r.below(4) as usize);
+                    Some("offset-changed")
+                }
+                5 => {
+                    *size = None;
+                    Some("size-unknown")
+                }
+                _ => {
+                    let _ = dsize;
+                    None
+                }
+            }
+        }
+        LS::Vector(t, l) => {
+            if descend {
+                return mutate_layout_in_place(r, t, depth + 1);
+            }
+            if r.chance(1, 2) {
+                *l = VecOrStringLayout::Unknown;
+                Some("vec-layout-unknown")
+            } else {
+                *l = if *l == VecOrStringLayout::LengthCapacityData { VecOrStringLayout::DataLength } else { VecOrStringLayout::LengthCapacityData };
+                Some("vec-layout-changed")
+            }
+        }
+        LS::Array(t, _) => mutate_layout_in_place(r, t, depth + 1),
+        LS::Prim(SchemaPrimitive::schema_string(l)) => {
+            if r.chance(1, 2) {
+                *l = VecOrStringLayout::Unknown;
+                Some("string-layout-unknown")
+            } else {
+                *l = if *l == VecOrStringLayout::LengthCapacityData { VecOrStringLayout::DataLength } else { VecOrStringLayout::LengthCapacityData };
+                Some("string-layout-changed")
+            }
+        }
+        _ => None,
+    }
+}
